@@ -62,6 +62,9 @@ class Plane:
 
         if mask is None:
             mask = np.copy(self._amplitude)
+        else:
+            # never binarize the caller's array in place
+            mask = np.array(mask)
         
         mask[mask != 0] = 1
         self._mask = mask
